@@ -166,7 +166,8 @@ def coerce(v: V, t: T) -> V:
     if isinstance(t, TMap) and isinstance(v.t, TMap) and isinstance(v.t.k, TOpaque) and v.t.k.nm == "$empty":
         return empty_map(t)
     if isinstance(t, TTuple) and isinstance(v.t, TTuple) and len(t.items) == len(v.t.items):
-        return mk_tuple([coerce(i, ti) for i, ti in zip(tuple_items(v), t.items)])
+        items = [coerce(i, ti) for i, ti in zip(tuple_items(v), t.items)]
+        return V(t, [z for i in items for z in i.zs])
     if isinstance(t, TOpaque) and isinstance(v.t, TOpaque):
         raise EngineError(f"cannot coerce {v.t} to {t}")
     raise EngineError(f"cannot coerce {v.t} to {t}")
